@@ -128,6 +128,16 @@ Section WithTd.
     | match ?x with _ => _ end = OkR _ => destruct x; try discriminate H
     end.
 
+  Ltac crunch_all :=
+    repeat match goal with
+    | H : bind ?x _ = OkR _ |- _ => let E := fresh "E" in destruct x eqn:E; cbn [bind] in H; [|discriminate H]
+    | H : (let '(_, _) := ?x in _) = OkR _ |- _ => destruct x
+    | H : (if ?b then _ else _) = OkR _ |- _ => destruct b
+    | H : match ?x with _ => _ end = OkR _ |- _ => destruct x; try discriminate H
+    | H : OkR _ = OkR _ |- _ => inversion H; subst; clear H
+    | H : ErrR _ = OkR _ |- _ => discriminate H
+    end.
+
   Ltac gt :=
     repeat first
       [ assumption
@@ -189,9 +199,8 @@ Section WithTd.
 
   Lemma hier_good t d : hier_to_dict inp td fuel t = OkR d -> good d.
   Proof.
-    unfold hier_to_dict. intros H. crunch H.
+    unfold hier_to_dict. intros H. crunch_all.
     all: match goal with E : class_attrR class_type_attr _ = OkR _ |- _ => destruct (type_attr_kind _ _ E) as [K1 K2] end.
-    all: inversion H; subst.
     all: apply good_node; [exact K1|rewrite K2; discriminate| | |some_inv|some_inv].
     all: try some_inv; try discriminate.
     all: try (intros l0 Hl0; inversion Hl0; subst).
@@ -199,4 +208,272 @@ Section WithTd.
     all: try (eapply subheading_list_good; eassumption).
     all: gt.
   Qed.
+
+  Lemma good_attrs_irrelevant k n n' a a' aa aa' num num' h sh fr ch :
+    good (DNode k n a aa num h sh fr ch) -> good (DNode k n' a' aa' num' h sh fr ch).
+  Proof. intros H g. specialize (H g). destruct g; [reflexivity|exact H]. Qed.
+
+  Lemma set_default_attr_good k v d : good d -> good (set_default_attr k v d).
+  Proof.
+    intros H. destruct d as [x|ty n a aa num h sh fr ch]; [exact H|]. cbn [set_default_attr].
+    destruct a as [l|]; [destruct (assoc_str k l)|]; try exact H; eapply good_attrs_irrelevant; exact H.
+  Qed.
+
+  Ltac gt2 :=
+    repeat first
+      [ assumption
+      | apply Forall_nil
+      | apply goodl_app
+      | apply Forall_cons
+      | apply good_empty_p | apply good_empty_hcontainer | apply good_text
+      | (eapply many_good; eassumption)
+      | (eapply inline_many_good; eassumption)
+      | (eapply inline_go_good; eassumption)
+      | (eapply subheading_list_good; eassumption)
+      | (eapply from_list_good; eassumption)
+      | (eapply mapR_good; [|eassumption]; exact Htd)
+      | (eapply Htd; eassumption)
+      | (eapply hier_good; eassumption)
+      | apply set_default_attr_good
+      | apply good_elem | apply good_hcontainer
+      | (apply good_node; [kind_ok | try discriminate; intros; try reflexivity | | | | ])
+      | (intros ? Hsome; first [discriminate Hsome | inversion Hsome; subst; clear Hsome])
+      | (eapply update_dict_good; [eassumption|reflexivity])
+      | (eapply update_dict_good; eassumption)
+      | (eapply truthy_good; [|eassumption]; eapply attachment_heading_good; eassumption)
+      ].
+
+  Lemma speech_container_good t d : speech_container_to_dict inp td fuel t = OkR d -> good d.
+  Proof. unfold speech_container_to_dict. intros H. crunch_all; gt2. Qed.
+
+  Lemma speech_group_good t d : speech_group_to_dict inp td fuel t = OkR d -> good d.
+  Proof.
+    unfold speech_group_to_dict. intros H.
+    destruct (speech_container_to_dict inp td fuel t) as [info|] eqn:E; [|discriminate]. cbn [bind] in H.
+    destruct (label t (S_ "body")) as [body|]; [|discriminate]. cbn [bind] in H.
+    destruct (label body (S_ "speech_from")) as [sf|]; [|discriminate]. cbn [bind] in H.
+    destruct (from_list inp td sf) as [fr|] eqn:EF; [|discriminate]. cbn [bind] in H.
+    destruct info as [x|ty n a aa num h sh fr0 ch]; [discriminate|].
+    match type of H with OkR ?r = OkR d => assert (Hd : d = r) by congruence end. subst d. clear H.
+    apply set_default_attr_good. apply speech_container_good in E.
+    intros g. specialize (E g). destruct g; [reflexivity|]. cbn [contract] in *.
+    repeat rewrite andb_true_iff in *. destruct E as (((((G1 & G2) & G3) & G4) & G5) & G6).
+    repeat split; try assumption. simpl. apply goodl_forallb. eapply from_list_good; eassumption.
+  Qed.
+
+  Lemma wrap_children_good b kids out : goodl kids -> wrap_children b kids = OkR out -> goodl out.
+  Proof.
+    unfold wrap_children. intros Hk H. crunch_all.
+    match goal with E : mapR _ kids = OkR ?keyed |- _ =>
+      assert (Hkeyed : Forall (fun kd : str * dnode => good (snd kd)) keyed);
+      [clear - Hk E; revert keyed E; induction Hk as [|d r Hd Hr IH]; intros keyed E; simpl in E;
+       [inversion E; constructor|]; destruct (classify b d); [|discriminate]; cbn [bind] in E;
+       destruct (mapR _ r) as [ks|] eqn:Er; [|discriminate]; cbn [bind] in E; inversion E; subst;
+       constructor; [exact Hd|apply IH; reflexivity]|]
+    end.
+    match goal with |- goodl (flat_map _ (groupby ?key ?l)) => 
+      assert (HG : Forall (fun g : str * list (str * dnode) => Forall (fun kd => good (snd kd)) (snd g)) (groupby key l)) end.
+    { clear - Hkeyed. induction Hkeyed as [|x r Hx Hr IH]; [constructor|]. cbn [groupby].
+      destruct (groupby _ r) as [|[k grp] rest]; [repeat constructor; assumption|].
+      inversion IH; subst. destruct (str_eqb _ k); repeat constructor; try assumption. }
+    clear - HG. induction HG as [|g r Hg Hr IH]; [constructor|]. cbn [flat_map]. apply goodl_app; [|exact IH].
+    assert (Hm : goodl (map snd (snd g))).
+    { clear - Hg. induction Hg; simpl; constructor; assumption. }
+    cbv beta.
+    match goal with |- context [if ?c then _ else _] => destruct c end;
+      [apply Forall_cons; [apply good_hcontainer; exact Hm|apply Forall_nil]|].
+    match goal with |- context [if ?c then _ else _] => destruct c end; [|exact Hm].
+    apply Forall_cons; [|apply Forall_nil]. apply good_hcontainer.
+    apply Forall_cons; [|apply Forall_nil]. apply good_elem. exact Hm.
+  Qed.
+
+  Lemma main_content_good t d : main_content_to_dict td fuel t = OkR d -> good d.
+  Proof.
+    unfold main_content_to_dict. intros H. crunch_all.
+    all: match goal with E : wrap_children _ _ = OkR _ |- _ => eapply wrap_children_good in E; [|eapply many_good; eassumption] end.
+    all: gt2.
+    all: match goal with |- goodl (match ?l with [] => _ | _ :: _ => _ end) => destruct l; [destruct (is_a _ _)|] end; gt2.
+  Qed.
+
+  Lemma block_indent_good t d : block_indent_to_dict inp td fuel t = OkR d -> good d.
+  Proof. unfold block_indent_to_dict. intros H. crunch_all; gt2. Qed.
+
+  Lemma judgment_body_good t d : judgment_body_to_dict td t = OkR d -> good d.
+  Proof. unfold judgment_body_to_dict. intros H. crunch_all; gt2. Qed.
+
+  Lemma longtitle_good t d : longtitle_to_dict inp td t = OkR d -> good d.
+  Proof. unfold longtitle_to_dict. intros H. crunch_all; gt2. Qed.
+
+  Lemma crossheading_good t d : crossheading_to_dict inp td t = OkR d -> good d.
+  Proof. unfold crossheading_to_dict. intros H. crunch_all; gt2. Qed.
+
+  Lemma attachments_good t d : attachments_to_dict td t = OkR d -> good d.
+  Proof. unfold attachments_to_dict. intros H. crunch_all; gt2. Qed.
+
+  Lemma line_good t d : line_to_dict inp td t = OkR d -> good d.
+  Proof. unfold line_to_dict. intros H. crunch_all; gt2. Qed.
+
+  Lemma p_good t d : p_to_dict inp td t = OkR d -> good d.
+  Proof. unfold p_to_dict. intros H. crunch_all; gt2. Qed.
+
+  Lemma speech_block_good t d : speech_block_to_dict inp td t = OkR d -> good d.
+  Proof. unfold speech_block_to_dict. intros H. crunch_all; gt2. Qed.
+
+  Lemma block_list_good t d : block_list_to_dict inp td t = OkR d -> good d.
+  Proof. unfold block_list_to_dict. intros H. crunch_all; gt2. Qed.
+
+  Lemma block_list_item_good t d : block_list_item_to_dict inp td fuel t = OkR d -> good d.
+  Proof. unfold block_list_item_to_dict. intros H. crunch_all; gt2. Qed.
+
+  Lemma bullet_list_good t d : bullet_list_to_dict inp td t = OkR d -> good d.
+  Proof. unfold bullet_list_to_dict. intros H. crunch_all; gt2. Qed.
+
+  Lemma block_container_good t d : block_container_to_dict inp td fuel t = OkR d -> good d.
+  Proof. unfold block_container_to_dict. intros H. crunch_all; gt2. Qed.
+
+  Lemma table_good t d : table_to_dict inp td t = OkR d -> good d.
+  Proof. unfold table_to_dict. intros H. crunch_all; gt2. Qed.
+
+  Lemma table_row_good t d : table_row_to_dict td t = OkR d -> good d.
+  Proof. unfold table_row_to_dict. intros H. crunch_all; gt2. Qed.
+
+  Lemma table_cell_good t d : table_cell_to_dict inp td fuel t = OkR d -> good d.
+  Proof. unfold table_cell_to_dict. intros H. crunch_all; gt2. Qed.
+
+  Lemma block_quote_good t d : block_quote_to_dict inp td fuel t = OkR d -> good d.
+  Proof. unfold block_quote_to_dict. intros H. crunch_all; gt2. Qed.
+
+  Lemma footnote_ref_good t d : footnote_ref_to_dict inp t = OkR d -> good d.
+  Proof. unfold footnote_ref_to_dict. intros H. crunch_all; gt2. Qed.
+
+  Lemma footnote_good t d : footnote_to_dict inp td fuel t = OkR d -> good d.
+  Proof. unfold footnote_to_dict. intros H. crunch_all; gt2. Qed.
+
+  Lemma inline_text_good t d : inline_text_to_dict inp td t = OkR d -> good d.
+  Proof. unfold inline_text_to_dict. intros H. crunch_all; gt2. Qed.
+
+  Lemma image_good t d : image_to_dict inp t = OkR d -> good d.
+  Proof. unfold image_to_dict. intros H. crunch_all; gt2. Qed.
+
+  Lemma inline_node_good name attribs kids : goodl kids -> good (inline_node name attribs kids).
+  Proof. intros H. unfold inline_node. apply good_node; try kind_ok; try discriminate; try some_inv; assumption. Qed.
+
+  Lemma inline_children_good t l out : inline_children inp td t l = OkR out -> goodl out.
+  Proof. unfold inline_children. intros H. crunch_all. gt2. Qed.
+
+  Lemma inline_good t d : inline_to_dict inp td t = OkR d -> good d.
+  Proof. unfold inline_to_dict. intros H. crunch_all. apply inline_node_good. eapply inline_children_good; eassumption. Qed.
+
+  Lemma symmetric_inline_good t d : symmetric_inline_to_dict inp td t = OkR d -> good d.
+  Proof. unfold symmetric_inline_to_dict. intros H. crunch_all. apply inline_node_good. eapply inline_children_good; eassumption. Qed.
+
+  Lemma ref_good t d : ref_to_dict inp td t = OkR d -> good d.
+  Proof. unfold ref_to_dict. intros H. crunch_all. apply inline_node_good. eapply inline_children_good; eassumption. Qed.
+
+  Lemma remark_go_good : forall content batch out, remark_go inp td content batch = OkR out -> goodl out.
+  Proof.
+    induction content as [|kid r IH]; intros batch out H; cbn [remark_go] in H.
+    - destruct batch; [inversion H; constructor|]. eapply inline_many_good; eassumption.
+    - destruct (str_eqb (text inp kid) [NL]).
+      + crunch_all. apply goodl_app; [eapply inline_many_good; eassumption|].
+        apply Forall_cons; [|eapply IH; eassumption].
+        apply good_node; try kind_ok; try discriminate; some_inv.
+      + crunch_all. eapply IH; eassumption.
+  Qed.
+
+  Lemma remark_good t d : remark_to_dict inp td t = OkR d -> good d.
+  Proof. unfold remark_to_dict. intros H. crunch_all. apply inline_node_good. eapply remark_go_good; eassumption. Qed.
+
+  Lemma standard_inline_good t d : standard_inline_to_dict inp td t = OkR d -> good d.
+  Proof.
+    unfold standard_inline_to_dict. intros H.
+    destruct (label t (S_ "tag")) as [tg|]; [|discriminate]. cbn [bind] in H.
+    destruct (label t (S_ "attrs")) as [a|]; [|discriminate]. cbn [bind] in H.
+    match type of H with bind ?x _ = _ => destruct x as [attribs0|]; [|discriminate] end. cbn [bind] in H.
+    destruct (inline_children inp td t (S_ "inline_nested")) as [kids|] eqn:EK; [|discriminate]. cbn [bind] in H.
+    apply inline_children_good in EK.
+    match type of H with context [inline_node ?n ?at_ kids] => pose proof (inline_node_good n at_ kids EK) as G;
+      set (info := inline_node n at_ kids) in * end.
+    destruct (str_eqb (text inp tg) (S_ "em")); [|destruct (str_eqb (text inp tg) [43]); [|destruct (str_eqb (text inp tg) [45])]].
+    - destruct info; inversion H; subst; [exact G|]. eapply good_attrs_irrelevant. exact G.
+    - destruct info; inversion H; subst; [exact G|]. eapply good_attrs_irrelevant. exact G.
+    - destruct info; inversion H; subst; [exact G|]. eapply good_attrs_irrelevant. exact G.
+    - inversion H; subst. exact G.
+  Qed.
+
+  Lemma block_list_intro_good t d : block_list_intro_to_dict td t = OkR d -> good d.
+  Proof.
+    unfold block_list_intro_to_dict. intros H.
+    destruct (class_attrR class_name_attr t) as [name|]; [|discriminate]. cbn [bind] in H.
+    destruct (label t (S_ "line")) as [ln|]; [|discriminate]. cbn [bind] in H.
+    destruct (td ln) as [info|] eqn:EI; [|discriminate]. cbn [bind] in H.
+    destruct (label t (S_ "footnotes")) as [fn|]; [|discriminate]. cbn [bind] in H.
+    destruct (mapR td (t_kids fn)) as [extra|] eqn:EX; [|discriminate]. cbn [bind] in H.
+    apply Htd in EI. pose proof (mapR_good td _ _ Htd EX) as GX.
+    destruct info as [x|ty n a aa num h sh fr [ch|]]; try discriminate.
+    - inversion H; subst. intros g. specialize (EI g). destruct g; [reflexivity|]. cbn [contract] in *.
+      repeat rewrite andb_true_iff in *. destruct EI as (((((G1 & G2) & G3) & G4) & G5) & G6).
+      repeat split; try assumption. simpl in *. rewrite forallb_app, G6. apply goodl_forallb. exact GX.
+    - destruct extra; [|discriminate]. inversion H; subst.
+      intros g. specialize (EI g). destruct g; [reflexivity|exact EI].
+  Qed.
+
+  Lemma bullet_list_item_good t d : bullet_list_item_to_dict td fuel t = OkR d -> good d.
+  Proof.
+    unfold bullet_list_item_to_dict. intros H. crunch_all.
+    all: apply good_elem; apply goodl_app; gt2.
+    all: try (eapply concatMapR_good; [|eassumption]; intros kid ds Hk; cbv beta in Hk; crunch_all; gt2).
+  Qed.
+
+  Lemma attachment_good t d : attachment_to_dict inp td fuel t = OkR d -> good d.
+  Proof.
+    unfold attachment_to_dict. intros H. crunch_all.
+    all: match goal with E : wrap_children _ _ = OkR _ |- _ =>
+           eapply wrap_children_good in E; [|apply goodl_app; gt2] end.
+    all: apply good_node; [kind_ok|discriminate| | |some_inv|].
+    all: gt2.
+    all: try (match goal with |- goodl (match ?l with [] => _ | _ :: _ => _ end) => destruct l end; gt2).
+  Qed.
+
+  Lemma make_empty_good t tag : good (make_empty t tag).
+  Proof.
+    unfold make_empty.
+    repeat match goal with |- good (if ?c then _ else _) => destruct c end; gt2.
+  Qed.
+
+  Lemma document_root_good t d : document_root_to_dict td t = OkR d -> good d.
+  Proof.
+    unfold document_root_to_dict. intros H. crunch_all. apply good_elem.
+    eapply concatMapR_good; [|eassumption]. intros tag ds Hk. cbv beta in Hk. crunch_all; gt2; apply make_empty_good.
+  Qed.
+
+  Theorem dispatch_good t d : dispatch inp td fuel t = OkR d -> good d.
+  Proof.
+    unfold dispatch. intros H.
+    repeat match type of H with (if ?c then _ else _) = OkR _ => destruct c end; try discriminate.
+    all: first [ eapply document_root_good; eassumption | eapply judgment_body_good; eassumption
+               | eapply block_indent_good; eassumption | eapply longtitle_good; eassumption
+               | eapply crossheading_good; eassumption | eapply attachment_good; eassumption
+               | eapply main_content_good; eassumption | eapply speech_group_good; eassumption
+               | eapply speech_container_good; eassumption | eapply hier_good; eassumption
+               | eapply attachments_good; eassumption | eapply block_list_good; eassumption
+               | eapply block_list_intro_good; eassumption | eapply block_list_item_good; eassumption
+               | eapply bullet_list_good; eassumption | eapply bullet_list_item_good; eassumption
+               | eapply block_container_good; eassumption | eapply table_good; eassumption
+               | eapply table_row_good; eassumption | eapply table_cell_good; eassumption
+               | eapply speech_block_good; eassumption | eapply p_good; eassumption
+               | eapply line_good; eassumption | eapply block_quote_good; eassumption
+               | eapply footnote_ref_good; eassumption | eapply footnote_good; eassumption
+               | eapply inline_text_good; eassumption | eapply remark_good; eassumption
+               | eapply ref_good; eassumption | eapply standard_inline_good; eassumption
+               | eapply symmetric_inline_good; eassumption | eapply inline_good; eassumption
+               | eapply image_good; eassumption ].
+  Qed.
 End WithTd.
+
+(* C17: every node of every dict that to_dict returns, for every input text and parse tree *)
+Theorem to_dict_contract inp : forall fuel t d, to_dict inp fuel t = OkR d -> good d.
+Proof.
+  induction fuel as [|f IH]; intros t d H; [discriminate|]. cbn [to_dict] in H.
+  eapply dispatch_good; [|exact H]. exact IH.
+Qed.
